@@ -12,6 +12,7 @@ def sh(cmd,cwd=None):
 head=sh('git -C /repo rev-parse HEAD')[1].strip()
 # OVERRIDE: detection notes for slips that a later fix: commit made harmless on HEAD
 OVERRIDE={'C03-r4-2':{'detected':None,'covered_by':'harmless on HEAD since fix 754285cc (the position can no longer be past the end of the buffer, so the zero-length fast path before the bytes-left test is behaviour-preserving and no check may report it); confirmed at the commit it was written against, where the seek fix was missing'},
+ 'C16-r5-2':{'detected':None,'covered_by':'NOT reported, deliberately: the change alters torepr of a msgpack bin value only under a non-default -o bits_format; the property does not quantify over options, under the default the result is the same JSON value, and the unchanged tree reduces the same kind of row (asn1_ber octet/bit string, bson binary/object_id/decimal128) with tovalue, pinned by format/asn1/testdata/test.pem.fqtest: a rule demanding tostring would raise five alarms on the unchanged tree that are not defects'},
  'C17-r3-2':{'detected':None,'covered_by':'harmless on HEAD since fix f569d2cc (exit status stays 5); at its base commit the C17 check reported it under C17.writes _cli_last_expr_error:...:value (recorded value not provably truthy)'}}
 os.makedirs('/tmp/vd',exist_ok=True); shutil.copy('/verif/known_findings.json','/tmp/vd/known_findings.json')
 for cj in sorted(glob.glob(src+'/confirm/*.json')):
